@@ -410,8 +410,10 @@ pub enum G {
     PlusZ(T, T, T),
     TimesZ(T, T, T),
     Rel(Rel, Vec<T>),
-    /// for x in coll { body } : `x` is variable index, body uses it
+    /// for x in coll { body } : `x` is variable index, body uses it; the collection is a Vec<LTerm>
     For(u32, Vec<T>, Vec<G>),
+    /// the same with the collection given as an LTerm list
+    ForList(u32, Vec<T>, Vec<G>),
     /// project |vars| { body }
     Project(Vec<u32>, Vec<G>),
     /// harness fngoal: succeeds iff the (walked) term is a ground number list summing to n etc.
@@ -475,6 +477,13 @@ impl fmt::Display for G {
             G::For(x, coll, body) => write!(
                 f,
                 "for {} in &[{}] {{ {} }}",
+                var_name(*x),
+                join(coll, ", "),
+                join(body, ", ")
+            ),
+            G::ForList(x, coll, body) => write!(
+                f,
+                "for {} in &lterm!([{}]) {{ {} }}",
                 var_name(*x),
                 join(coll, ", "),
                 join(body, ", ")
